@@ -21,41 +21,12 @@ theorem codeAt_of_layout {P : LProg} {pre code post : List LInstr}
     (h : P.full = pre ++ code ++ post) (hf : FitsU16 code) :
     CodeAt P (lsize pre) code := ⟨pre, post, h, rfl, hf⟩
 
-mutual
-theorem AllN.of_forall {p : Node → Prop} (h : ∀ n, p n) : ∀ n, AllN p n
-  | .nil _ | .ident .. | .int .. | .float .. | .bool .. | .str .. | .const .. | .pointer _ => h _
-  | .unary _ _ x => ⟨h _, AllN.of_forall h x⟩
-  | .binary _ _ l r => ⟨h _, AllN.of_forall h l, AllN.of_forall h r⟩
-  | .matches _ _ l r => ⟨h _, AllN.of_forall h l, AllN.of_forall h r⟩
-  | .prop _ x _ _ => ⟨h _, AllN.of_forall h x⟩
-  | .index _ x i => ⟨h _, AllN.of_forall h x, AllN.of_forall h i⟩
-  | .slice _ x f t => ⟨h _, AllN.of_forall h x, AllNO.of_forall h f, AllNO.of_forall h t⟩
-  | .method _ x _ a _ => ⟨h _, AllN.of_forall h x, AllNL.of_forall h a⟩
-  | .func _ _ a _ => ⟨h _, AllNL.of_forall h a⟩
-  | .builtin _ _ a => ⟨h _, AllNL.of_forall h a⟩
-  | .closure _ x => ⟨h _, AllN.of_forall h x⟩
-  | .cond _ c a b => ⟨h _, AllN.of_forall h c, AllN.of_forall h a, AllN.of_forall h b⟩
-  | .array _ xs => ⟨h _, AllNL.of_forall h xs⟩
-  | .map _ ps => ⟨h _, AllNL.of_forall h ps⟩
-  | .pair _ k v => ⟨h _, AllN.of_forall h k, AllN.of_forall h v⟩
-theorem AllNO.of_forall {p : Node → Prop} (h : ∀ n, p n) : ∀ n, AllNO p n
-  | none => trivial
-  | some n => AllN.of_forall h n
-theorem AllNL.of_forall {p : Node → Prop} (h : ∀ n, p n) : ∀ ns, AllNL p ns
-  | [] => trivial
-  | n :: ns => ⟨AllN.of_forall h n, AllNL.of_forall h ns⟩
-end
-
-/-- with the trivial blame relation the blame obligations are void -/
-theorem allBlame_trivial (c : Cfg) (P : LProg) (hP : ∀ e l, P.blame e l) (n : Node) : AllBlame c P n :=
-  AllN.of_forall (fun m ctx σ e σ' _ => hP e m.loc) n
-
 /-- compiler output simulates the Spec (all the pool reasoning discharged) -/
 theorem compile_sim {cfg : CompCfg} {n : Node} {pool pool' : Pool} {code : List LInstr} {F : Val → Prop} {loops : Node → Prop}
     {c : Cfg} {P : LProg} (hc : compileNode cfg n pool = .ok (code, pool')) (hF : AliasFree F) (hinv : PoolInv F pool)
     (hfl : FloatsIn F n) (hg : Good loops n) (hK : PoolExt pool' P.consts) (henv : EnvOK c cfg)
-    (hloop : LoopCase c P loops) (hB : AllBlame c P n) (ctx : Ctx) : Sim c P ctx n code :=
-  sim henv hloop n code ctx ((compile_compiles cfg F hF n pool code pool' hc hinv hfl).comp _ hK) hg hB
+    (hloop : LoopCase c P loops) (ctx : Ctx) : Sim c P ctx n code :=
+  sim henv hloop n code ctx ((compile_compiles cfg F hF n pool code pool' hc hinv hfl).comp _ hK) hg
 
 /-! ### the dispatch loop -/
 
@@ -136,7 +107,7 @@ theorem program_runs {cfg : CompCfg} {n : Node} {cp : Compiled} {F : Val → Pro
     (bl : ErrClass → Loc → Prop)
     (hc : compileProgram cfg n = .ok cp) (hF : AliasFree F) (hfl : FloatsIn F n) (hg : Good loops n)
     (hfit : FitsU16 cp.code) (henv : EnvOK c cfg) (hloop : LoopCase c (lprogOf cp bl) loops)
-    (hB : AllBlame c (lprogOf cp bl) n)
+    (hB : BAt bl (evalLoc (specOf c) [] n) {})
     (hcb : ∀ t v e, cfg.cast = some t → castV t v = .error e → bl e {}) :
     Runs c (lprogOf cp bl) (vm 0 [] [] {} c.budget) (progOutcome c cfg n cp) := by
   unfold compileProgram at hc
@@ -149,7 +120,7 @@ theorem program_runs {cfg : CompCfg} {n : Node} {cp : Compiled} {F : Val → Pro
   simp only [pure_ok] at hcp
   subst hcp
   have hinv : PoolInv F {} := ⟨fun i w h => by simp at h, fun o h => by cases h⟩
-  have hsim := compile_sim (c := c) (P := lprogOf ⟨code ++ _, p.consts⟩ bl) hcn hF hinv hfl hg (PoolExt.refl p) henv hloop hB []
+  have hsim := compile_sim (c := c) (P := lprogOf ⟨code ++ _, p.consts⟩ bl) hcn hF hinv hfl hg (PoolExt.refl p) henv hloop []
   unfold progOutcome
   cases hev : eval (specOf c) [] n {} with
   | mk r σ' =>
@@ -159,7 +130,7 @@ theorem program_runs {cfg : CompCfg} {n : Node} {cp : Compiled} {F : Val → Pro
     simp only [hcast, List.append_nil, specOut] at hfit hsim hloop ⊢
     have hcode : CodeAt (lprogOf ⟨code, p.consts⟩ bl) 0 code :=
       (codeAt_of_layout (pre := []) (post := []) (by simp [lprogOf]) hfit)
-    have hrun := hsim 0 [] [] {} r σ' hcode rfl hev
+    have hrun := hsim 0 [] [] {} r σ' hcode rfl hev hB
     cases r with
     | ok v => simpa using hrun
     | error e => simpa using hrun
@@ -170,7 +141,7 @@ theorem program_runs {cfg : CompCfg} {n : Node} {cp : Compiled} {F : Val → Pro
       (codeAt_of_layout (pre := []) (post := [li {} .cast tc]) (by simp [lprogOf]) hfit'.1)
     have hcast' : CodeAt (lprogOf ⟨code ++ [li {} .cast tc], p.consts⟩ bl) (lsize code) [li {} .cast tc] :=
       (codeAt_of_layout (pre := code) (post := []) (by simp [lprogOf]) hfit'.2)
-    have hrun := hsim 0 [] [] {} r σ' hcode rfl hev
+    have hrun := hsim 0 [] [] {} r σ' hcode rfl hev hB
     cases r with
     | error e => simpa using hrun
     | ok v =>
@@ -184,7 +155,7 @@ theorem run_conforms_gen {cfg : CompCfg} {n : Node} {cp : Compiled} {F : Val →
     (hfit : FitsU16 cp.code) (henv : EnvOK c cfg) (hloop : LoopCase c (lprogOf cp (fun _ _ => True)) loops) :
     ∃ N, ∀ fuel, N ≤ fuel → RunAgrees (run c (progOf cp) fuel) (Spec.run (specOf c) cfg.cast n) := by
   have hrun := program_runs (fun _ _ => True) hc hF hfl hg hfit henv hloop
-    (allBlame_trivial c _ (fun _ _ => trivial) n) (fun _ _ _ _ _ => trivial)
+    (BAt.trivial _ _) (fun _ _ _ _ _ => trivial)
   have hsize : (progOf cp).code.size = lsize cp.code := by
     simp [progOf, Compiled.bytes, encodeAll_length, lsize]
   unfold progOutcome at hrun
